@@ -395,7 +395,7 @@ func (r *Run) execFrom(fr *Frame, b *ssa.BasicBlock) Value {
 			r.curInstr = ins
 			switch x := ins.(type) {
 			case *ssa.If:
-				c := r.get(fr, x.Cond).(*Term)
+				c := r.ts.norm(r.get(fr, x.Cond).(*Term))
 				if !c.IsConst() {
 					if J, ok := r.tryMerge(fr, b, c); ok {
 						next = J
